@@ -803,13 +803,13 @@ func Run(r *core.Run) {
 		for s := 0; s < 4; s++ {
 			jobs = append(jobs, tlcJob{family: "expr", size: 3, shard: s, shards: 4, parts: 8})
 		}
-		for s := 0; s < 4; s++ {
-			jobs = append(jobs, tlcJob{family: "spine", size: 4, shard: s, shards: 4, parts: 8})
+		for s := 0; s < 2; s++ {
+			jobs = append(jobs, tlcJob{family: "spine", size: 3, shard: s, shards: 2, parts: 8})
 		}
 		jobs = append(jobs, tlcJob{family: "skel", size: 2, shard: 0, shards: 1, parts: 16})
 		// random compositions of the same node classes to depth 3 (seeded)
 		for k := int64(0); k < 3; k++ {
-			jobs = append(jobs, tlcJob{family: "rand", size: 15000, shard: 0, shards: 1, parts: 8, seed: r.Seed*100 + k + 1})
+			jobs = append(jobs, tlcJob{family: "rand", size: 6000, shard: 0, shards: 1, parts: 8, seed: r.Seed*100 + k + 1})
 		}
 	} else {
 		for s := 0; s < 3; s++ {
